@@ -198,7 +198,7 @@ func init() {
 				}
 			}
 			// a locked site that no longer exists as a map range is fine (it cannot be order dependent any more)
-			out = append(out, e.nondetScanResult(), e.newSitesResult())
+			out = append(out, e.nondetScanResult(), e.newSitesResult(), e.helperCallersResult())
 			return out
 		},
 		Assumptions: []string{
